@@ -5,7 +5,7 @@ import linecache
 from dataclasses import dataclass
 from typing import TypeAlias
 
-from guppylang_internals.ast_util import get_file, get_line_offset
+from guppylang_internals.ast_util import get_file, get_line_offset, get_source
 from guppylang_internals.error import InternalGuppyError
 from guppylang_internals.ipython_inspect import normalize_ipython_dummy_files
 
@@ -113,13 +113,23 @@ def to_span(x: ToSpan) -> Span:
     assert file is not None
     assert line_offset is not None
     # x.lineno and line_offset both start at 1, so we have to subtract 1
-    start = Loc(file, x.lineno + line_offset - 1, x.col_offset)
+    end_lineno = x.end_lineno or x.lineno
+    start = Loc(file, x.lineno + line_offset - 1, _char_col(x, x.lineno, x.col_offset))
     end = Loc(
         file,
-        (x.end_lineno or x.lineno) + line_offset - 1,
-        x.end_col_offset or x.col_offset,
+        end_lineno + line_offset - 1,
+        _char_col(x, end_lineno, x.end_col_offset or x.col_offset),
     )
     return Span(start, end)
+
+
+def _char_col(x: ast.AST, lineno: int, byte_col: int) -> int:
+    """Converts a UTF-8 byte offset reported by the Python parser into a column."""
+    lines = (get_source(x) or "").splitlines()
+    if not 1 <= lineno <= len(lines) or lines[lineno - 1].isascii():
+        return byte_col
+    prefix = lines[lineno - 1].encode("utf-8")[:byte_col]
+    return len(prefix.decode("utf-8", errors="ignore"))
 
 
 #: List of source lines in a file
